@@ -11,7 +11,11 @@ class Ctx:
         self.prog = Program.load(force=force)
         self.extract_seconds = time.time() - t0
         from .inline import inline_new_helpers
-        self.inline_report = inline_new_helpers(self.prog)
+        try:
+            self.inline_report = inline_new_helpers(self.prog)
+        except Exception as e:  # the refinement must never take the analysis down: fall back to the program as extracted
+            self.prog = Program.load(force=False)
+            self.inline_report = {"error": repr(e), "new_helpers": [], "spliced_sites": 0}
         self.cg = CallGraph(self.prog)
         self._locks = None
         self._og = {}
